@@ -812,6 +812,8 @@ UNITS = [
     ("scheduling ops", ["SchedOps.lean"], lambda src: __import__("sched2lean").generate(src)),
     ("coroutine state helpers", ["CoroState.lean"], lambda src: __import__("corostate2lean").generate(src)),
     ("context selection", ["CtxResume.lean"], lambda src: __import__("ctxresume2lean").generate(src)),
+    ("monitor.py: Monitor, BoundMonitor, GeneratorObject(Iterator)", ["Monitor.lean"],
+     lambda src: __import__("monitor2lean").generate(src)),
 ]
 
 
